@@ -17,7 +17,7 @@ for p in props:
           "engine":"gosmt",
           "level_claimed":{"category":"model_checking","text":c['text'],"design_ref":c.get('design_ref','DESIGN.md section 5 '+p['id'])},
           "level_note":c['note'],
-          "technique":c.get('technique',"bounded symbolic execution of the real Go functions (go/ssa -> SMT-LIB2, z3), counterexamples replayed natively")})
+          "technique":c.get('technique',"bounded symbolic execution of the real Go functions (go/ssa -> SMT-LIB2, z3 5.1 / 4.8.12), counterexamples replayed natively")})
     else:
         na.append({"property_id":p['id'],"reason":claims['not_applicable'].get(p['id'],"check not built yet (see DESIGN.md build order)")})
 m={"version":1,
